@@ -140,6 +140,16 @@ def file_cases(chk, zs, thorough, per_zoo_cap=None, large=False):
                                       ("list", [] if i % 3 == 1 else [("leaf", zoolib.le(i, 4))] * (1 + i % 2))]))
             for codec in (0, 1, 2):
                 out.append((z, 100000, codec, [("a", r) for r in rs] + [("w",), ("c",)], "level-boundary"))
+    # long single pages of the deeply nested structs: level streams of width 3 and 4 with hundreds of
+    # values and (nearly) no repeats, i.e. bit-packed runs of dozens of groups at every width
+    for name in (("deep", "doc", "nested") if large else ()):
+        z = zs.get(name)
+        if z is None:
+            continue
+        g = zoolib.Gen(rng, mode="pool", p_nil=0.35, lens=(0, 1, 2, 3))
+        for n in (200, 700):
+            rs = [g.record(z.nodes) for _ in range(n)]
+            out.append((z, 100000, (n // 100) % 3 if name != "deep" else 0, [("a", r) for r in rs] + [("w",), ("c",)], "wide-levels"))
     # one very long string value
     z = zs.get("three") if large else None
     if z is not None:
